@@ -297,9 +297,11 @@ def chisq(ix, R):
     chi_n = spec(fl, 'nansum(((obs - B)/std)*((obs - B)/std))', b)
     chi_s = spec(fl, 'np.sum(((obs - B)/std)*((obs - B)/std))', b)
     okf = False
+    from sa.helpers import unalloc_deep
+    rval = unalloc_deep(fl, r.value)        # (a residual squared in place in its own buffer has the same value)
     for chi in (chi_n, chi_s):
         for w in (chi, spec(fl, '_guard(chi == 0, nan, chi)', {'chi': chi, 'nan': spec(fl, 'np.nan')})):
-            okf = okf or fl.tab.equal(r.value, w)
+            okf = okf or fl.tab.equal(rval, w)
     okf = okf and not [g for g in getattr(r, 'guards', ()) if not g.early] and not getattr(r, 'loops', ())
     R.check('3.chi', 'ALG', site, 'chi2 = sum(((observed - binned model)/sigma)^2), binned model = bin_model(...)[1]',
             okf, key='returns %s' % fmt(fl, r.value), detail='returns %s' % fmt(fl, r.value),
